@@ -193,6 +193,55 @@ func decodeAny(b []byte) (any, bool) {
 	return x, true
 }
 
+func callJSON(c *router.Context, k *jsnCase, v any, extra string) error {
+	switch k.Variant {
+	case 0:
+		return c.JSON(k.Code, v)
+	case 1:
+		return c.IndentedJSON(k.Code, v)
+	case 2:
+		return c.PureJSON(k.Code, v)
+	case 3:
+		if k.HasExtra {
+			return c.SecureJSON(k.Code, v, extra)
+		}
+		return c.SecureJSON(k.Code, v)
+	case 4:
+		return c.ASCIIJSON(k.Code, v)
+	}
+	if k.HasExtra {
+		return c.JSONP(k.Code, v, extra)
+	}
+	return c.JSONP(k.Code, v)
+}
+
+// jsonSame: does the body (prefix / callback stripped) decode with encoding/json to the value plain
+// json.Marshal's output decodes to?
+func jsonSame(k *jsnCase, v any, extra string, body []byte) bool {
+	ref, err := json.Marshal(v)
+	if err != nil {
+		return false
+	}
+	payload := body
+	switch k.Variant {
+	case 3:
+		p := "while(1);"
+		if k.HasExtra && extra != "" {
+			p = extra
+		}
+		payload = bytes.TrimPrefix(payload, []byte(p))
+	case 5:
+		cb := "callback"
+		if k.HasExtra && extra != "" {
+			cb = extra
+		}
+		payload = bytes.TrimSuffix(bytes.TrimPrefix(payload, []byte(cb+"(")), []byte(")"))
+	}
+	a, ok1 := decodeAny(payload)
+	b, ok2 := decodeAny(ref)
+	return ok1 && ok2 && reflect.DeepEqual(a, b)
+}
+
 func emitJsn(id string, k *jsnCase, st *hx.Stats) string {
 	v := k.V.val()
 	extra := unhex(k.Extra)
@@ -207,28 +256,7 @@ func emitJsn(id string, k *jsnCase, st *hx.Stats) string {
 				panicked = true
 			}
 		}()
-		switch k.Variant {
-		case 0:
-			rerr = c.JSON(k.Code, v)
-		case 1:
-			rerr = c.IndentedJSON(k.Code, v)
-		case 2:
-			rerr = c.PureJSON(k.Code, v)
-		case 3:
-			if k.HasExtra {
-				rerr = c.SecureJSON(k.Code, v, extra)
-			} else {
-				rerr = c.SecureJSON(k.Code, v)
-			}
-		case 4:
-			rerr = c.ASCIIJSON(k.Code, v)
-		default:
-			if k.HasExtra {
-				rerr = c.JSONP(k.Code, v, extra)
-			} else {
-				rerr = c.JSONP(k.Code, v)
-			}
-		}
+		rerr = callJSON(c, k, v, extra)
 	})
 	body := rec.Body.Bytes()
 	l.Sep()
@@ -239,27 +267,7 @@ func emitJsn(id string, k *jsnCase, st *hx.Stats) string {
 		l.Tok("E").Nat(len(body)).Str(rec.Header().Get("Content-Type"))
 	default:
 		// does the body decode (with encoding/json) to the value plain json.Marshal decodes to?
-		same := false
-		if ref, err := json.Marshal(v); err == nil {
-			payload := body
-			switch k.Variant {
-			case 3:
-				p := "while(1);"
-				if k.HasExtra && extra != "" {
-					p = extra
-				}
-				payload = bytes.TrimPrefix(payload, []byte(p))
-			case 5:
-				cb := "callback"
-				if k.HasExtra && extra != "" {
-					cb = extra
-				}
-				payload = bytes.TrimSuffix(bytes.TrimPrefix(payload, []byte(cb+"(")), []byte(")"))
-			}
-			a, ok1 := decodeAny(payload)
-			b, ok2 := decodeAny(ref)
-			same = ok1 && ok2 && reflect.DeepEqual(a, b)
-		}
+		same := jsonSame(k, v, extra, body)
 		l.Tok("R").Nat(rec.Code).Str(rec.Header().Get("Content-Type")).Bytes(body).Bool(same)
 	}
 	if st != nil {
